@@ -2,6 +2,7 @@
 mod core;
 mod engines;
 mod prng;
+mod simdisk;
 
 use crate::core::*;
 use engines::net::{NetEngine, NetProp};
@@ -82,6 +83,7 @@ fn main() {
         "C04" => dispatch(&NetEngine { prop: NetProp::C04 }, &mode),
         "C12" => dispatch(&engines::snapxfer::XferEngine, &mode),
         "C13" => dispatch(&engines::snapsync::SyncEngine, &mode),
+        "C15" => dispatch(&engines::demo::DemoEngine, &mode),
         "C20" => dispatch(&engines::multi::MultiEngine, &mode),
         _ => {
             eprintln!("unknown property {}", prop);
